@@ -77,6 +77,10 @@ def cases(tier):
         out.append(dict(kind='excel_eam', m=m, route='cfg'))
     for m in EK.big_models(True, tier)[::3]:
         out.append(dict(kind='excel_eam_fs', m=m, route='potable'))
+    for fs in (False, True):
+        for m in EK.api_option_models(fs):
+            if m.get('numpy_returns') or m.get('assign_after'):
+                out.append(dict(kind='excel_eam_fs' if fs else 'excel_eam', m=m, route='cls'))
     # ADP: species that only have a density (null embedding) but do have dipole / quadrupole functions; dipole or quadrupole lists
     # in which EVERY function involves a species that is not in the file (left over from a larger model / removed by a species filter)
     for i, els in enumerate(EK.ordered_subsets(EK.UNIVERSE[:3], (2, 3))):
